@@ -209,7 +209,7 @@ def exec_pair(rel, stmts, s1, s2):
     for stmt in stmts:
         nxt = []
         for (a, b) in pairs:
-            if isinstance(stmt, ast.For) and rel.c.options.get("rel_lockstep"):
+            if isinstance(stmt, ast.For) and rel.c.options.get("rel_lockstep") and _is_range_loop(stmt):
                 for r in lockstep_for(rel, stmt, a, b):
                     (nxt if r[2] == NORMAL else done).append(r if r[2] != NORMAL else (r[0], r[1]))
                 continue
@@ -246,8 +246,27 @@ def exec_pair(rel, stmts, s1, s2):
                     for r in res:
                         (nxt if r[2] == NORMAL else done).append(r if r[2] != NORMAL else (r[0], r[1]))
                 continue
+            log = ex.ctx.__dict__.setdefault("restrict_log", [])
+            n0 = len(log)
             r1 = ex.exec_stmt(stmt, a)
+            n1 = len(log)
             r2 = ex.exec_stmt(stmt, b)
+            n2 = len(log)
+            if n1 - n0 == n2 - n1 and n1 > n0 and len(r1) == 1 and len(r2) == 1:
+                # arrays that the two runs handed to deterministic functions (np.sum, np.median, callees) in this statement, in
+                # evaluation order: show each pair equal cell by cell and record the equality of the restricted arrays themselves
+                # (extensionality), so that nested applications  f(g(x))  are equal by congruence instead of by a search
+                for (c1, nd1), (c2, nd2) in zip(log[n0:n1], log[n1:n2]):
+                    if nd1 != nd2 or c1.sort() != c2.sort() or c1.eq(c2):
+                        continue
+                    ks = [z3.Int(f"k!rq{i}") for i in range(nd1)]
+                    cell = z3.ForAll(ks, sel(c1, *ks) == sel(c2, *ks))
+                    ok, dt = rel.prove(r1[0][0], r2[0][0], cell)
+                    if not ok:
+                        break
+                    rel.record(r1[0][0], r2[0][0], f"restricted@L{stmt.lineno}", cell, dt)
+                    r1[0][0].assume(c1 == c2, tag="rel:lemma")
+                    r2[0][0].assume(c1 == c2, tag="rel:lemma")
             assigned, stored = scan_modified([stmt])
             for (x, o1) in r1:
                 for (y, o2) in r2:
@@ -267,6 +286,11 @@ def exec_pair(rel, stmts, s1, s2):
                         raise Unsupported(f"outcome {o1.kind} in relational mode")
         pairs = nxt
     return [(a, b, NORMAL, None, None) for (a, b) in pairs] + done
+
+
+def _is_range_loop(stmt):
+    it = stmt.iter
+    return isinstance(it, ast.Call) and isinstance(it.func, ast.Name) and it.func.id in ("range", "prange") and isinstance(stmt.target, ast.Name)
 
 
 def _range_bounds(ex, it, st):
@@ -303,6 +327,23 @@ def lockstep_for(rel, stmt, a, b):
         raise Unsupported(f"loop bounds at {where} are not provably the same in the two runs")
     rel.record(a, b, f"bounds@{where}", z3.And(zint(lo1) == zint(lo2), zint(hi1) == zint(hi2)), dt)
     step = st1
+    if all(isinstance(v, int) for v in (lo1, hi1, lo2, hi2)) and lo1 == lo2 and hi1 == hi2 and abs(hi1 - lo1) <= 6:
+        # short literal range: both runs are unrolled in lockstep (no invariant needed)
+        pairs, outs = [(a, b)], []
+        for kv in range(lo1, hi1, step):
+            nxt = []
+            for (x, y) in pairs:
+                x.env[idx] = kv
+                y.env[idx] = kv
+                for (p, q, kind, v1, v2) in exec_pair(rel, stmt.body, x, y):
+                    if kind in (NORMAL, CONTINUE):
+                        nxt.append((p, q))
+                    elif kind == BREAK:
+                        outs.append((p, q, NORMAL, None, None))
+                    else:
+                        outs.append((p, q, kind, v1, v2))
+            pairs = nxt
+        return outs + [(p, q, NORMAL, None, None) for (p, q) in pairs]
     zlo, zhi = zint(lo1), zint(hi1)
     assigned, stored = scan_modified(stmt.body)
     assigned.add(idx)
